@@ -350,6 +350,8 @@ def run(ctx):
             NFFT = max(NFFT, 2 * cfg['lag'] + 2)
         if cls == 'pminvar':
             NFFT = max(NFFT, 2 * cfg['order'] + 1)
+        if cls == 'MultiTapering' and (it // len(plan)) % 3 == 2 and clause in ('shift', 'mirror'):
+            NFFT = max(8, N // 2 - (it % 2)); route = 'fresh'      # a grid SHORTER than the record (the estimator accepts it: the tapered record is cut to NFFT samples)
         m = int(rng.choice([1, 2, 3, 5, -1, -4, NFFT - 1, NFFT + 3, int(rng.integers(-2 * NFFT, 2 * NFFT))]))
         tag = 'real' if clause == 'fold' else 'complex'
         ctx.count('search/%s/%s/%s' % (clause, cls, 'NFFT-even' if NFFT % 2 == 0 else 'NFFT-odd'))
